@@ -112,6 +112,12 @@ pub fn render(fmt: &Fmt, c: i128, s: TimeScale, off_ns: i128) -> String {
     out
 }
 
+/// offset held by a formatter before `set_timezone` replaces it (see check_render)
+const OTHER_OFF_NS: i128 = 90 * NS_MIN;
+thread_local! {
+    static SET_TZ: std::cell::RefCell<Option<(String, String)>> = const { std::cell::RefCell::new(None) };
+}
+
 pub fn check_render(rep: &mut Rep, fmt: &Fmt, c: i128, s: TimeScale, off_min: i32, parse_back: bool) {
     if !rep.tick() {
         return;
@@ -174,6 +180,22 @@ pub fn check_render(rep: &mut Rep, fmt: &Fmt, c: i128, s: TimeScale, off_min: i3
         use std::fmt::Write;
         let mut o = String::new();
         write!(o, "{}", fm).map_err(|_| "fmt::Error".to_string())?;
+        // a formatter is a value: printing it twice gives the same text
+        let mut again = String::new();
+        write!(again, "{}", fm).map_err(|_| "fmt::Error".to_string())?;
+        if again != o {
+            return Err(format!("second print {:?} differs from the first {:?}", again, o));
+        }
+        // set_timezone: %z prints the offset last given, whatever the formatter held before
+        let mut a = Formatter::new(e, f);
+        a.set_timezone(mk(off_ns));
+        let mut b = Formatter::with_timezone(e, mk(OTHER_OFF_NS), f);
+        b.set_timezone(mk(off_ns));
+        b.set_timezone(mk(off_ns));
+        let (mut oa, mut ob) = (String::new(), String::new());
+        write!(oa, "{}", a).map_err(|_| "fmt::Error".to_string())?;
+        write!(ob, "{}", b).map_err(|_| "fmt::Error".to_string())?;
+        SET_TZ.with(|x| *x.borrow_mut() = Some((oa, ob)));
         Ok::<_, String>((f, o))
     });
     match got {
@@ -183,6 +205,19 @@ pub fn check_render(rep: &mut Rep, fmt: &Fmt, c: i128, s: TimeScale, off_min: i3
             if out != want {
                 rep.fail("render/value", None, || format!("{} printed {:?}, want {:?}", det(), out, want));
                 return;
+            }
+            // set_timezone replaces the offset that %z prints. Whether it also moves the printed fields is not said
+            // anywhere (the code leaves them where the constructor put them), so both readings are accepted for the
+            // fields; the %z text must be that of the offset last set in either case.
+            if let Some((oa, ob)) = SET_TZ.with(|x| x.borrow_mut().take()) {
+                let wa = [render(fmt, c - off_ns, s, off_ns), want.clone()];
+                let wb = [render(fmt, c + OTHER_OFF_NS - off_ns, s, off_ns), want.clone()];
+                if !wa.contains(&oa) {
+                    rep.fail("set_timezone/value", None, || format!("{}: Formatter::new + set_timezone printed {:?}, want {:?} or {:?}", det(), oa, wa[0], wa[1]));
+                }
+                if !wb.contains(&ob) {
+                    rep.fail("set_timezone/value", None, || format!("{}: with_timezone(+01:30) + set_timezone printed {:?}, want {:?} or {:?}", det(), ob, wb[0], wb[1]));
+                }
             }
             // parse back: UTC epochs, full date and time, no optional tokens
             let full = fmt.has("%Y") && fmt.has("%H") && fmt.has("%M") && fmt.has("%S") && (((fmt.has("%m") || fmt.has("%B") || fmt.has("%b")) && fmt.has("%d")) || fmt.has("%j"));
